@@ -63,6 +63,15 @@ def _is_numeric(a):
     return isinstance(a, np.ndarray) and a.dtype != object
 
 
+import fnmatch as _fn
+import posixpath as _pp
+
+# pure string functions of the standard library the evaluated code may call (POSIX semantics, case-sensitive)
+import re as _re
+
+_PURE_EXTERNALS = {"re.compile": _re.compile, "re.escape": _re.escape, "fnmatch.fnmatch": _fn.fnmatchcase, "fnmatch.fnmatchcase": _fn.fnmatchcase, "fnmatch.translate": _fn.translate, "os.path.basename": _pp.basename, "os.path.normcase": _pp.normcase, "os.path.splitext": _pp.splitext}
+
+
 def _prog_call(fn, *args, **kw):
     """Run an operation of the evaluated program (a list / dict / str / set method, a builtin): a Python exception it
     raises is the exception the program would raise."""
@@ -116,6 +125,22 @@ class _Expr(SymEval):
         # mixed / symbolic: delegate with the already evaluated operands
         sub = SymEval({"__a": a, "__b": b}, None, self.np_names)
         return sub.eval(ast.BinOp(left=ast.Name(id="__a", ctx=ast.Load()), op=n.op, right=ast.Name(id="__b", ctx=ast.Load())))
+
+    def _display(self, elts):
+        out = []
+        for e in elts:
+            if isinstance(e, ast.Starred):
+                v = self.eval(e.value)
+                out.extend(list(v))
+            else:
+                out.append(self.eval(e))
+        return out
+
+    def e_List(self, n):
+        return self._display(n.elts)
+
+    def e_Tuple(self, n):
+        return tuple(self._display(n.elts))
 
     def e_Dict(self, n):
         out = {}
@@ -244,6 +269,17 @@ class _Expr(SymEval):
 
     def e_Call(self, n):
         f = n.func
+        root = f
+        while isinstance(root, ast.Attribute):
+            root = root.value
+        if isinstance(f, ast.Attribute) and isinstance(root, ast.Name) and root.id not in self.env and root.id not in self.np_names:
+            mod = getattr(self.owner, "module", None) or (self.owner.cls.module if self.owner.cls is not None else None)
+            r = self.owner.prog.resolve_expr(None, mod, f) if mod is not None else None
+            if r is not None and r[0] == "external" and r[1] in _PURE_EXTERNALS:
+                args = [self.eval(a) for a in n.args]
+                if not all(isinstance(a, str) for a in args):
+                    raise NotSymbolic(f"{r[1]} on non-constant arguments")
+                return _prog_call(_PURE_EXTERNALS[r[1]], *args)
         # numeric-only numpy helpers and reductions that SymEval does not know
         if isinstance(f, ast.Attribute) and isinstance(f.value, ast.Name) and f.value.id in self.np_names:
             args = [self.eval(a) for a in n.args]
@@ -319,6 +355,11 @@ class _Expr(SymEval):
                 return self.owner.call_method(base, f.attr, [self.eval(a) for a in n.args], {k.arg: self.eval(k.value) for k in n.keywords})
             if isinstance(base, str) and f.attr in ("lower", "upper", "strip", "title", "capitalize", "startswith", "endswith", "replace", "split", "join", "rstrip", "lstrip"):
                 return _prog_call(getattr(base, f.attr), *[self.eval(a) for a in n.args])
+            if isinstance(base, _re.Pattern) and f.attr in ("search", "match", "fullmatch", "findall"):
+                args = [self.eval(a) for a in n.args]
+                if not all(isinstance(a, str) for a in args):
+                    raise NotSymbolic("regular expression applied to a non-constant")
+                return _prog_call(getattr(base, f.attr), *args)
             if isinstance(base, (set, frozenset)) and f.attr in ("difference", "union", "intersection", "issubset", "issuperset", "symmetric_difference", "add", "copy", "isdisjoint"):
                 return _prog_call(getattr(base, f.attr), *[self.eval(a) for a in n.args])
             if isinstance(base, list) and f.attr in ("append", "extend", "index", "count", "copy", "insert", "pop"):
@@ -343,6 +384,11 @@ class _Expr(SymEval):
                 if stub is not None:
                     return stub(args, kw)
                 return self.owner.run_free(g, args, kw)
+            if r is not None and r[0] == "external" and r[1] in _PURE_EXTERNALS:
+                args = [self.eval(a) for a in n.args]
+                if not all(isinstance(a, str) for a in args):
+                    raise NotSymbolic(f"{r[1]} on non-constant arguments")
+                return _prog_call(_PURE_EXTERNALS[r[1]], *args)
             if r is not None and r[0] == "external" and r[1] in ("warnings.warn",):
                 for a in n.args:
                     self.eval(a)
@@ -389,6 +435,18 @@ class _Expr(SymEval):
                     import builtins
 
                     return _prog_call(getattr(builtins, f.id), *args)
+            if f.id in ("hasattr", "getattr") and len(n.args) >= 2:
+                obj, name = self.eval(n.args[0]), self.eval(n.args[1])
+                if isinstance(obj, Rec):
+                    has = name in obj.fields or (obj.cls is not None and (name in obj.cls.getters or name in obj.cls.methods))
+                    if f.id == "hasattr":
+                        return has
+                    if has:
+                        return self.owner.get(obj, name)
+                    if len(n.args) == 3:
+                        return self.eval(n.args[2])
+                    raise Raised("AttributeError")
+                raise NotSymbolic(f"{f.id} on a non-instance")
             if f.id == "id" and len(n.args) == 1:
                 return id(self.eval(n.args[0]))
             if f.id == "bool" and len(n.args) == 1:
@@ -421,7 +479,18 @@ class _Expr(SymEval):
                     try:
                         v = ConstEval(self.owner.prog).global_value(r[1], r[2])
                     except NotConstant as exc:
-                        raise NotSymbolic(f"module constant {n.id}: {exc}") from exc
+                        b = r[3] if len(r) > 3 else None
+                        if b is None or getattr(b, "value", None) is None or getattr(b, "index", None) is not None or self.owner.depth > 6:
+                            raise NotSymbolic(f"module constant {n.id}: {exc}") from exc
+                        # a module-level value built from other (possibly overridden) module state
+                        saved = getattr(self.owner, "module", None)
+                        self.owner.module = r[1]
+                        self.owner.depth += 1
+                        try:
+                            v = _Expr({}, self.owner).eval(b.value)
+                        finally:
+                            self.owner.module = saved
+                            self.owner.depth -= 1
                     # module-level containers are private to one evaluation (state of earlier calls is not modelled:
                     # every evaluation sees the module as freshly imported; cross-call state is C16's business)
                     cache[key] = copy.deepcopy(v) if isinstance(v, (dict, list, set)) else v
